@@ -201,8 +201,16 @@ def compare(drv, ex, obs):
         return "c16.pool driver error: " + resp["error"]
     if resp["mismatch"]:
         m = resp["mismatch"][0]
-        return (f"search {m['search']} (thread {ex.owner.get(m['search'])}) reported the future ({m['origin']}, {m['k']}) "
-                f"dispatched by search {m['origin']}: it is not in the model's list of that search")
+        msg = (f"search {m['search']} (thread {ex.owner.get(m['search'])}) reported the future ({m['origin']}, {m['k']}) "
+               f"dispatched by search {m['origin']}: it is not in the model's list of that search")
+        try:
+            alt = drv.call("c16.pool", fresh=False, nets=nets, scores=scores, events=evs)
+            if not alt.get("mismatch"):
+                msg += ("  [the run agrees with the model's variant freshList = false: one list shared by all "
+                        "searches, see C16.shared_list_counterexample]")
+        except Exception:
+            pass
+        return msg
     for s, sr in enumerate(resp["searches"]):
         if sr["cancelled"] != cancelled.get(s, []):
             return f"search {s}: cancelled futures model {sr['cancelled']} vs implementation {cancelled.get(s, [])}"
